@@ -604,7 +604,11 @@ func oracle1(bt *built) string {
 		return "header blob gas used is not blobs * gas per blob"
 	}
 	if want := eip4844.CalcExcessBlobGas(s.cfg, bt.parent, h.Time); h.ExcessBlobGas == nil || *h.ExcessBlobGas != want {
-		return fmt.Sprintf("header excess blob gas %v is not the importer's value %d", optU(h.ExcessBlobGas), want)
+		have := "nil"
+		if h.ExcessBlobGas != nil {
+			have = fmt.Sprint(*h.ExcessBlobGas)
+		}
+		return fmt.Sprintf("header excess blob gas %s is not the importer's value %d", have, want)
 	}
 	// per-account nonce order
 	signer := types.MakeSigner(s.cfg, h.Number, h.Time)
